@@ -114,7 +114,17 @@ class _MatchToIf(ast.NodeTransformer):
     def visit_Match(self, node):
         node = self.generic_visit(node)
         subject = node.subject
-        if not isinstance(subject, (ast.Name, ast.Attribute, ast.Constant)):
+        def _pure(x):
+            # names, attribute chains, constants and constant subscripts of those (data[3], self.request[5]): evaluating
+            # them again gives the same value, and an IndexError comes from the first evaluation in both forms
+            if isinstance(x, (ast.Name, ast.Constant)):
+                return True
+            if isinstance(x, ast.Attribute):
+                return _pure(x.value)
+            if isinstance(x, ast.Subscript):
+                return _pure(x.value) and isinstance(x.slice, ast.Constant)
+            return False
+        if not _pure(subject):
             return node          # evaluating the subject twice could repeat an effect
         chain: List = []
         for case in node.cases:
@@ -242,8 +252,71 @@ class _TestOfFreshLocal(ast.NodeTransformer):
     visit_AsyncFunctionDef = _fn
 
 
+class _AsyncWithLock(ast.NodeTransformer):
+    """``async with <lock>: body`` where <lock> is ``self._lock`` / ``self._ensure_lock()`` (or any expression whose
+    attribute chain names a lock) is what the language defines it to be::
+
+        await <lock>.acquire()
+        try: body
+        finally: <lock>.release()          # unconditional: RuntimeError when the lock is not held any more
+
+    so the lock typestate rules read the acquire and - above all - the unguarded release at the end."""
+
+    def __init__(self):
+        self.count = 0
+
+    @staticmethod
+    def _lock_expr(e: ast.expr) -> Optional[ast.expr]:
+        inner = e.func if isinstance(e, ast.Call) and not e.args and not e.keywords else e
+        parts = []
+        while isinstance(inner, ast.Attribute):
+            parts.append(inner.attr)
+            inner = inner.value
+        if not isinstance(inner, ast.Name) or not parts:
+            return None
+        if not any("lock" in p_.lower() for p_ in parts):
+            return None
+        if isinstance(e, ast.Call) and parts[0] == "_ensure_lock" and inner.id == "self":
+            return ast.Attribute(value=ast.Name(id="self", ctx=ast.Load()), attr="_lock", ctx=ast.Load())
+        if isinstance(e, ast.Call):
+            return None
+        return e
+
+    def visit_AsyncWith(self, node: ast.AsyncWith):
+        self.generic_visit(node)
+        if len(node.items) != 1 or node.items[0].optional_vars is not None:
+            return node
+        e = node.items[0].context_expr
+        rel = self._lock_expr(e)
+        if rel is None:
+            return node
+        import copy
+        acq = ast.Expr(value=ast.Await(value=ast.Call(func=ast.Attribute(value=e, attr="acquire", ctx=ast.Load()), args=[], keywords=[])))
+        last = node.body[-1]
+        relc = ast.Expr(value=ast.Call(func=ast.Attribute(value=copy.deepcopy(rel), attr="release", ctx=ast.Load()), args=[], keywords=[]))
+        for x in ast.walk(relc):
+            x.lineno = getattr(last, "end_lineno", last.lineno)
+            x.end_lineno = x.lineno
+            x.col_offset = x.end_col_offset = 0
+        tr = ast.Try(body=node.body, handlers=[], orelse=[], finalbody=[relc])
+        ast.copy_location(acq, node)
+        ast.copy_location(tr, node)
+        for x in ast.walk(acq):
+            if not hasattr(x, "lineno"):
+                ast.copy_location(x, node)
+        self.count += 1
+        return [acq, tr]
+
+
 def desugar(trees: Dict[str, ast.Module]) -> int:
     n = 0
+    for name, tree in trees.items():
+        if any(isinstance(x, ast.AsyncWith) for x in ast.walk(tree)):
+            aw = _AsyncWithLock()
+            aw.visit(tree)
+            if aw.count:
+                ast.fix_missing_locations(tree)
+                n += aw.count
     for name, tree in trees.items():
         tl = _TestOfFreshLocal()
         tl.visit(tree)
